@@ -134,9 +134,11 @@ enum O {
     Exists,
     NotFound,
     Other,
+    Abandoned,
 }
 
 /// Brute-force linearizability of the operations on ONE name against the map specification.
+/// An operation whose caller disappeared (`O::Abandoned`) may have taken effect at any point after its invocation, or not at all.
 fn linearizable(ops: &[(K, O, u64, u64)], initially: bool) -> bool {
     fn rec(ops: &[(K, O, u64, u64)], done: &mut Vec<bool>, state: bool) -> bool {
         if done.iter().all(|d| *d) {
@@ -151,6 +153,24 @@ fn linearizable(ops: &[(K, O, u64, u64)], initially: bool) -> bool {
                 continue;
             }
             let (k, o, _, _) = ops[i];
+            if o == O::Abandoned {
+                // either it never happened ...
+                done[i] = true;
+                if rec(ops, done, state) {
+                    return true;
+                }
+                // ... or it happened here, with whatever result the specification gives
+                let s2 = match k {
+                    K::Create => true,
+                    K::Delete => false,
+                    K::Get => state,
+                };
+                if rec(ops, done, s2) {
+                    return true;
+                }
+                done[i] = false;
+                continue;
+            }
             let next = match (k, o, state) {
                 (K::Create, O::Ok, false) => Some(true),
                 (K::Create, O::Exists, true) => Some(true),
@@ -176,6 +196,9 @@ fn linearizable(ops: &[(K, O, u64, u64)], initially: bool) -> bool {
 }
 
 fn classify(r: &R) -> O {
+    if *r == R::Pending {
+        return O::Abandoned;
+    }
     match r.code() {
         None => O::Ok,
         Some(Code::AlreadyExists) => O::Exists,
@@ -185,6 +208,11 @@ fn classify(r: &R) -> O {
 }
 
 fn c10_scenario(name: &'static str, progs: Vec<Vec<COp>>, topic_initially: bool, sub_initially: bool) -> ScenFn {
+    c10_scenario_x(name, progs, topic_initially, sub_initially, false)
+}
+
+/// `abandon`: client 0 disappears after k polls (data choice over k); its unfinished call may or may not have taken effect.
+fn c10_scenario_x(name: &'static str, progs: Vec<Vec<COp>>, topic_initially: bool, sub_initially: bool, abandon: bool) -> ScenFn {
     scen!([progs] |cx| {
         if topic_initially {
             must!(cx, "setup:create-topic", { let a = cx.api.clone(); async move { a.create_topic(T0).await } });
@@ -193,7 +221,27 @@ fn c10_scenario(name: &'static str, progs: Vec<Vec<COp>>, topic_initially: bool,
             must!(cx, "setup:create-sub", { let a = cx.api.clone(); async move { a.create_sub(S0, T0, 10, None).await } });
         }
         let l = start(&cx, &progs, &[]);
-        tryv!(await_termination(&cx, &l, name).await);
+        let mut abandoned = false;
+        if abandon {
+            let k = cx.choose("abandon-client0-after-polls", 5);
+            if k < 4 {
+                tryv!(cx.quiesce_until_polls("client:00", k as u32).await);
+                if !l.handles[0].is_finished() {
+                    cx.abort_now(&l.handles[0]).await;
+                    abandoned = true;
+                }
+            }
+        }
+        if abandoned {
+            // the abandoned client's pending call never returns: wait for everybody else
+            tryv!(cx.quiesce().await);
+            tryv!(cx.advance_ms(1000).await);
+            if let Some(c) = l.hist.pending().into_iter().find(|c| c.client != 0) {
+                return ScenarioOut::viol(format!("{}/hang-next-to-abandoned-request", name), format!("client {} is still waiting for {:?}: {}", c.client, c.op, l.hist.key()));
+            }
+        } else {
+            tryv!(await_termination(&cx, &l, name).await);
+        }
         let key = l.hist.key();
         // per-name histories
         let mut topic_ops = vec![];
@@ -241,21 +289,58 @@ pub fn c10_sched(thorough: bool) -> Vec<Unit> {
         ("create-sub‖delete-topic", vec![vec![CreateSub(S0, T0)], vec![DeleteTopic(T0)], vec![GetSub(S0)]], true, false),
         ("delete-topic;create-topic‖publish", vec![vec![DeleteTopic(T0), CreateTopic(T0)], vec![Publish(T0, 1), Publish(T0, 1)], vec![GetTopic(T0)]], true, true),
     ];
-    progs
+    let mut v: Vec<Unit> = progs
         .into_iter()
         .map(|(n, p, t, s)| explore_unit(format!("sched/{}", n), format!("{:?}: per-name linearizability (brute force over all orders consistent with real time) and quiescent-state consistency", p), Bounds::new(d), ExecCfg::default(), c10_scenario(n, p, t, s)))
-        .collect()
+        .collect();
+    let ab: Vec<(&'static str, Vec<Vec<COp>>, bool, bool)> = vec![
+        ("abandoned-delete-sub‖get;delete;create", vec![vec![DeleteSub(S0)], vec![GetSub(S0), DeleteSub(S0), CreateSub(S0, T0), GetSub(S0)]], true, true),
+        ("abandoned-create-sub‖get;create", vec![vec![CreateSub(S0, T0)], vec![GetSub(S0), CreateSub(S0, T0), GetSub(S0)]], true, false),
+        ("abandoned-delete-topic‖get;create", vec![vec![DeleteTopic(T0)], vec![GetTopic(T0), CreateTopic(T0), Publish(T0, 1)]], true, true),
+        ("abandoned-create-topic‖create", vec![vec![CreateTopic(T0)], vec![CreateTopic(T0), GetTopic(T0)]], false, false),
+    ];
+    for (n, p, t, s) in ab {
+        v.push(explore_unit(format!("sched/{}", n), format!("{:?}, client 0 disappears after k polls (every k): its call either took effect or did not - the rest of the history must be explainable either way, and the quiescent state consistent", p), Bounds::new(d - 1), ExecCfg::default(), c10_scenario_x(n, p, t, s, true)));
+    }
+    v
 }
 
 // ------------------------------------------------------------------------------------------- C11
 
 fn c11_scenario(name: &'static str, progs: Vec<Vec<COp>>) -> ScenFn {
+    c11_scenario_x(name, progs, false)
+}
+
+fn c11_scenario_x(name: &'static str, progs: Vec<Vec<COp>>, abandon: bool) -> ScenFn {
     scen!([progs] |cx| {
         must!(cx, "setup:create-topic", { let a = cx.api.clone(); async move { a.create_topic(T0).await } });
         must!(cx, "setup:create-sub", { let a = cx.api.clone(); async move { a.create_sub(S0, T0, 10, None).await } });
         must!(cx, "setup:create-sub", { let a = cx.api.clone(); async move { a.create_sub(S1, T0, 10, None).await } });
         must!(cx, "setup:publish", { let a = cx.api.clone(); async move { a.publish(T0, vec![(b"held".to_vec(), vec![])]).await } });
         let l = start(&cx, &progs, &[]);
+        let mut abandoned = false;
+        if abandon {
+            let k = cx.choose("abandon-client0-after-polls", 5);
+            if k < 4 {
+                tryv!(cx.quiesce_until_polls("client:00", k as u32).await);
+                if !l.handles[0].is_finished() {
+                    cx.abort_now(&l.handles[0]).await;
+                    abandoned = true;
+                }
+            }
+        }
+        if abandoned {
+            tryv!(cx.quiesce().await);
+            tryv!(cx.advance_ms(1000).await);
+            if let Some(c) = l.hist.pending().into_iter().find(|c| c.client != 0) {
+                return ScenarioOut::viol(format!("{}/hang-next-to-abandoned-request", name), format!("client {} is still waiting for {:?}: {}", c.client, c.op, l.hist.key()));
+            }
+            // whether the abandoned deletion took effect is open; the quiescent state must be consistent either way
+            let key = l.hist.key();
+            tryv!(l.close_streams(&cx).await);
+            tryv!(world_check(&cx, name, &key).await);
+            return ScenarioOut::ok(format!("abandoned: {}", key));
+        }
         tryv!(await_termination(&cx, &l, name).await);
         let key = l.hist.key();
         tryv!(l.close_streams(&cx).await);
@@ -299,7 +384,16 @@ pub fn c11_sched(thorough: bool) -> Vec<Unit> {
         ("delete-topic;create-topic‖create-sub", vec![vec![DeleteTopic(T0), CreateTopic(T0)], vec![CreateSub(S2, T0)], vec![Publish(T0, 1)]]),
         ("delete-sub‖delete-topic", vec![vec![DeleteSub(S0)], vec![DeleteTopic(T0)], vec![ListTopicSubs(T0)]]),
     ];
-    progs.into_iter().map(|(n, p)| explore_unit(format!("sched/{}", n), format!("{:?}; afterwards ListTopicSubscriptions of every live topic = the existing subscriptions reporting it, a probe publish reaches exactly those, deleted things are gone, subscriptions of a deleted topic keep serving", p), Bounds::new(d), ExecCfg::default(), c11_scenario(n, p))).collect()
+    let mut v: Vec<Unit> = progs.into_iter().map(|(n, p)| explore_unit(format!("sched/{}", n), format!("{:?}; afterwards ListTopicSubscriptions of every live topic = the existing subscriptions reporting it, a probe publish reaches exactly those, deleted things are gone, subscriptions of a deleted topic keep serving", p), Bounds::new(d), ExecCfg::default(), c11_scenario(n, p))).collect();
+    let ab: Vec<(&'static str, Vec<Vec<COp>>)> = vec![
+        ("abandoned-delete-topic‖publish‖list", vec![vec![DeleteTopic(T0)], vec![Publish(T0, 1), Publish(T0, 1)], vec![ListTopicSubs(T0)]]),
+        ("abandoned-delete-sub‖publish‖list", vec![vec![DeleteSub(S0)], vec![Publish(T0, 1)], vec![ListTopicSubs(T0), GetSub(S0)]]),
+        ("abandoned-create-sub‖publish", vec![vec![CreateSub(S2, T0)], vec![Publish(T0, 1), Publish(T0, 1)]]),
+    ];
+    for (n, p) in ab {
+        v.push(explore_unit(format!("sched/{}", n), format!("{:?}, client 0 disappears after k polls (every k); whatever became of its request, topics and subscriptions must be consistent with each other at quiescence", p), Bounds::new(d - 1), ExecCfg::default(), c11_scenario_x(n, p, true)));
+    }
+    v
 }
 
 // ------------------------------------------------------------------------------------------- C01 / C08
